@@ -1,7 +1,7 @@
 (* C13  Trained models are valid: weights on the simplex (up to the count floor), variances above floors. *)
 From Coq Require Import Reals List.
 From BLE Require Import Num.InstR Model.GMM Model.KMeans Model.IVector Proofs.RLemmas Proofs.GMMLik Proofs.GMMStats Proofs.GMMMap
-     Proofs.Valid Proofs.ValidFit Proofs.KMeansR Proofs.IVectorR.
+     Proofs.Valid Proofs.ValidFit Proofs.ValidMap Proofs.KMeansR Proofs.IVectorR.
 Import ListNotations.
 Open Scope R_scope.
 
@@ -65,3 +65,21 @@ Theorem C13_ml_training_run_ends_in_a_valid_model (C nf : nat) (sw : MR.switches
   machine_ok C nf mc' /\ wf_gmm nf (MR.g mc').
 Proof. exact (fit_ok C nf sw eps cthr cap X mc mc' n hist). Qed.
 Print Assumptions C13_ml_training_run_ends_in_a_valid_model.
+
+(* The same for MAP adaptation and for any trainer: Reynolds adaptation with a positive relevance factor or a fixed ratio in
+   [0, 1), a prior of the same shape with positive weights; for the variance blend of today's code (sq = false, known finding D2)
+   and for the repaired one alike - whatever the blend yields, the variances setter lifts it to the positive floors. *)
+Theorem C13_map_m_step_preserves_validity (C nf : nat) (sq : bool) (sw : MR.switches) (eps : R) (rel : option R) (al : R) (prior : MR.gmm)
+    (X : list (list R)) (mc : MR.machine) :
+  (0 < C)%nat -> X <> [] -> GMMStats.rows_ok nf X -> 0 < eps -> machine_ok C nf mc -> prior_ok C nf prior -> coeff_ok rel al ->
+  machine_ok C nf (MR.map_m_step sq sw eps rel al prior (MR.e_step nf (MR.g mc) X) mc).
+Proof. exact (map_m_step_ok C nf sq sw eps rel al prior X mc). Qed.
+Print Assumptions C13_map_m_step_preserves_validity.
+
+Theorem C13_any_training_run_ends_in_a_valid_model (C nf : nat) (tr : MR.trainer) (sw : MR.switches) (eps : R) (cthr : option R) (cap : nat)
+    (X : list (list R)) (mc mc' : MR.machine) (n : nat) (hist : list R) :
+  (0 < C)%nat -> X <> [] -> GMMStats.rows_ok nf X -> 0 < eps -> machine_ok C nf mc -> trainer_ok C nf tr ->
+  MR.fit cap tr sw eps cthr nf [X] mc = Some (mc', n, hist) ->
+  machine_ok C nf mc' /\ wf_gmm nf (MR.g mc').
+Proof. exact (fit_ok_any_trainer C nf tr sw eps cthr cap X mc mc' n hist). Qed.
+Print Assumptions C13_any_training_run_ends_in_a_valid_model.
